@@ -97,6 +97,10 @@ def c07_images(ctx, rng, for_search=False):
         for v in vals:
             imgs.append(G.wellformed(fmt, rng, size=v, big=(not quick and rng.random() < 0.15)))
     imgs += special_layouts(rng, quick)
+    # more random admissible layouts with random in-range sizes
+    for fmt, k in (('vhdx', 6), ('vmdk', 12), ('iso', 8), ('qcow2', 6), ('vhd', 4), ('vdi', 4), ('luks', 6)):
+        for _ in range(k if quick else 4 * k):
+            imgs.append(G.wellformed(fmt, rng, big=(not quick and rng.random() < 0.15)))
     return imgs
 
 
